@@ -161,4 +161,30 @@ theorem sortMuts_mem (ms : List Mut) (m : Mut) : m ∈ sortMuts ms ↔ m ∈ ms 
 example : groupFold (fun (x : Nat) => x % 3) [1, 2, 4, 5, 3] = [(1, [1, 4]), (2, [2, 5]), (0, [3])] := by decide
 example : alleleName "CYP2D6*4.001" = "4.001" := by decide +kernel
 
+/-! ### minor alleles of one major allele are pairwise different -/
+
+theorem dedupMinors_distinct (ms : List MajorA) : ∀ a ∈ dedupMinors ms, (a.minors.map (·.neutral)).Nodup := by
+  intro a ha
+  unfold dedupMinors at ha
+  obtain ⟨b, _, rfl⟩ := List.mem_map.mp ha
+  simp only [List.map_map]
+  have : ((fun (x : MinorA) => x.neutral) ∘ (fun (g : List Mut × List String) =>
+      ({ name := strMin g.2, altName := (b.minors.find? (·.name == strMin g.2)).bind (·.altName), neutral := g.1 } : MinorA)) ∘
+      fun (g : List Mut × List MinorA) => (g.1, g.2.map (·.name))) = fun g => g.1 := by
+    funext g; rfl
+  have key := groupFold_keys_nodup (fun (s : MinorA) => s.neutral) b.minors
+  simpa [List.map_map, Function.comp_def] using key
+
+/-- **minors_pairwise_distinct** in the catalogue the loader builds, the minor alleles of one major
+allele have pairwise different variant sets (duplicates are merged under the smallest name) -/
+theorem catalogue_minors_distinct (db : RawDb) :
+    ∀ a ∈ (buildCatalogue db).alleles, (a.minors.map (·.neutral)).Nodup := by
+  have : ∃ ms, (buildCatalogue db).alleles = dedupMinors ms := by
+    unfold buildCatalogue
+    exact ⟨_, rfl⟩
+  obtain ⟨ms, h⟩ := this
+  rw [h]
+  exact dedupMinors_distinct ms
+
+
 end Aldy
